@@ -28,6 +28,13 @@ int main(void) {
             size_t ic[64], oc[64]; size_t ni = parse_csv(strtok(NULL, " "), ic, 64), no = parse_csv(strtok(NULL, " "), oc, 64); size_t every = (size_t)strtoull(strtok(NULL, " "), NULL, 10);
             size_t cap = ZSTD_compressBound(n) + 64 * (n / (mfs ? mfs : n + 1) + n / (every ? every : n + 1) + 16) + 4096 + 2 * n, produced = 0, consumed = 0, r = 0, ii = 0, oi = 0, sinceEnd = 0; unsigned char* out = (unsigned char*)malloc(cap);
             ZSTD_seekable_CStream* zcs = ZSTD_seekable_createCStream(); int guard = 0;
+            {   /* optional 8th field: an earlier session on the SAME object that consumed <prior> bytes and was abandoned (no endFrame / endStream) */
+                char* pr = strtok(NULL, " "); size_t prior = pr ? (size_t)strtoull(pr, NULL, 10) : 0;
+                if (prior) { ZSTD_inBuffer ib; ZSTD_outBuffer ob; size_t scap = ZSTD_compressBound(prior) + 4096; unsigned char* scratch = (unsigned char*)malloc(scap);
+                    ZSTD_seekable_initCStream(zcs, level, ck, mfs ? mfs : 0);
+                    ib.src = in; ib.size = prior < n ? prior : n; ib.pos = 0; ob.dst = scratch; ob.size = scap; ob.pos = 0;
+                    while (ib.pos < ib.size && guard++ < 1000000) { size_t rr = ZSTD_seekable_compressStream(zcs, &ob, &ib); if (ZSTD_isError(rr)) break; }
+                    free(scratch); guard = 0; } }
             r = ZSTD_seekable_initCStream(zcs, level, ck, mfs);
             while (!ZSTD_isError(r) && consumed < n && guard++ < 50000000) {
                 size_t isz = ic[ii++ % ni], osz = oc[oi++ % no]; ZSTD_inBuffer ib; ZSTD_outBuffer ob;
